@@ -9,15 +9,6 @@ namespace C04C
 open Model Model.Ticks Model.MidiPair Model.MidiModes Model.ScoreMidi
 open C04I (noteRow)
 
-/-- the voice number `create_part` receives -/
-def voiceInt (v : Option Nat) : Int := match v with | some v => (v : Int) | none => 0
-
-/-- (part number, voice) of a cell -/
-def tagOf (c : Option Cell) : Option Nat × Int :=
-  match c with
-  | some c => (c.2.1, voiceInt c.2.2)
-  | none => (none, 0)
-
 theorem lookup_zip_nodup {α β : Type} [DecidableEq α] (keys : List α) (vs : List β) (hn : keys.Nodup)
     (k : α) (v : β) (h : (k, v) ∈ keys.zip vs) : lookup k (keys.zip vs) = some v := by
   induction keys generalizing vs with
@@ -144,5 +135,252 @@ theorem import_cells (mode ticks : Nat) (tracks : List (List (Int × Msg))) (imp
   · intro e _ he
     have : e.2.1 = [] := by simpa using he
     simp [this]
+
+-- ------------------------------------------------------------------ `sorted(keys)` depends on the key set only
+
+theorem ltTC_irrefl (a : Nat × Nat) : ¬ C04I.ltTC a a := by
+  unfold C04I.ltTC; omega
+
+theorem ltTC_asymm {a b : Nat × Nat} (h : C04I.ltTC a b) : ¬ C04I.ltTC b a := by
+  unfold C04I.ltTC at *; omega
+
+theorem sorted_ext (l₁ l₂ : List (Nat × Nat)) (h₁ : l₁.Pairwise C04I.ltTC) (h₂ : l₂.Pairwise C04I.ltTC)
+    (hm : ∀ x, x ∈ l₁ ↔ x ∈ l₂) : l₁ = l₂ := by
+  induction l₁ generalizing l₂ with
+  | nil =>
+    cases l₂ with
+    | nil => rfl
+    | cons b bs => exact absurd ((hm b).mpr List.mem_cons_self) (by simp)
+  | cons a as ih =>
+    cases l₂ with
+    | nil => exact absurd ((hm a).mp List.mem_cons_self) (by simp)
+    | cons b bs =>
+      obtain ⟨ha, has⟩ := List.pairwise_cons.mp h₁
+      obtain ⟨hb, hbs⟩ := List.pairwise_cons.mp h₂
+      have hab : a = b := by
+        rcases List.mem_cons.mp ((hm a).mp List.mem_cons_self) with h | h
+        · exact h
+        · rcases List.mem_cons.mp ((hm b).mpr List.mem_cons_self) with h' | h'
+          · exact h'.symm
+          · exact absurd (ha b h') (ltTC_asymm (hb a h))
+      subst hab
+      congr 1
+      apply ih bs has hbs
+      intro x
+      constructor
+      · intro hx
+        rcases List.mem_cons.mp ((hm x).mp (List.mem_cons_of_mem _ hx)) with h | h
+        · subst h; exact absurd (ha x hx) (ltTC_irrefl x)
+        · exact h
+      · intro hx
+        rcases List.mem_cons.mp ((hm x).mpr (List.mem_cons_of_mem _ hx)) with h | h
+        · subst h; exact absurd (hb x hx) (ltTC_irrefl x)
+        · exact h
+
+theorem sortedTC_congr (l₁ l₂ : List (Nat × Nat)) (hm : ∀ x, x ∈ l₁ ↔ x ∈ l₂) : sortedTC l₁ = sortedTC l₂ :=
+  sorted_ext _ _ (C04I.sortedTC_sorted l₁) (C04I.sortedTC_sorted l₂)
+    (fun x => by rw [C04M.mem_sortedTC, C04M.mem_sortedTC]; exact hm x)
+
+-- ------------------------------------------------------------------ which (track, channel) pairs hold notes
+
+theorem mem_zipIdx_iff {α : Type} (l : List α) (x : α) (i : Nat) : (x, i) ∈ l.zipIdx ↔ l[i]? = some x := by
+  rw [List.mem_zipIdx_iff_getElem?]
+
+theorem mem_byTrCh (tracks : List (List (Int × Msg))) (i ch : Nat) :
+    (i, ch) ∈ (notesByTrCh ((readTracks tracks).filter fun e => !e.2.1.isEmpty)).map (·.1) ↔
+      ∃ tr, tracks[i]? = some tr ∧ ∃ n ∈ pairTrack tr, n.ch = ch := by
+  simp only [notesByTrCh, readTracks, List.mem_map, List.mem_flatMap, List.mem_filter, C04G.channelsOf_eq,
+    C04G.mem_firstSeen]
+  constructor
+  · rintro ⟨x, ⟨e, ⟨⟨ti, hti, rfl⟩, _⟩, c, ⟨n, hn, rfl⟩, rfl⟩, hx⟩
+    obtain ⟨tr, j⟩ := ti
+    simp only [Prod.mk.injEq] at hx
+    obtain ⟨rfl, rfl⟩ := hx
+    exact ⟨tr, (mem_zipIdx_iff tracks tr j).mp hti, n, hn, rfl⟩
+  · rintro ⟨tr, htr, n, hn, rfl⟩
+    refine ⟨((i, n.ch), (pairTrack tr).filter (fun m => m.ch = n.ch)), ⟨_, ⟨⟨(tr, i), (mem_zipIdx_iff tracks tr i).mpr htr, rfl⟩, ?_⟩, n.ch, ⟨n, hn, rfl⟩, rfl⟩, rfl⟩
+    simp only [Bool.not_eq_eq_eq_not, Bool.not_true, List.isEmpty_eq_false_iff]
+    exact List.ne_nil_of_mem hn
+
+theorem mem_noteKeys (parts : List PartIn) (k : Key) :
+    k ∈ noteKeys parts ↔ ∃ xi ∈ parts.zipIdx, ∃ n ∈ xi.1.notes, (xi.1.group, xi.2, n.2.2.2) = k := by
+  unfold noteKeys
+  rw [C04G.mem_firstSeen]
+  simp only [List.mem_flatMap, List.mem_map]
+
+/-- the voices `assign_group_part_voice` hands out are `None` or a positive number -/
+theorem assign_voice_shape (mode : Nat) (trch : List (Nat × Nat)) :
+    ∀ c ∈ assignGroupPartVoice mode trch, c.2.2 = none ∨ ∃ v, c.2.2 = some (v + 1) := by
+  intro c hc
+  match mode with
+  | 0 =>
+    simp only [assignGroupPartVoice] at hc
+    obtain ⟨i, _, rfl⟩ := List.mem_iff_getElem.mp hc
+    simp only [List.getElem_zipWith]
+    exact Or.inr ⟨_, rfl⟩
+  | 1 =>
+    simp only [assignGroupPartVoice] at hc
+    obtain ⟨i, _, rfl⟩ := List.mem_iff_getElem.mp hc
+    simp only [List.getElem_zipWith]
+    exact Or.inl trivial
+  | 2 =>
+    simp only [assignGroupPartVoice, List.mem_map] at hc
+    obtain ⟨v, _, rfl⟩ := hc
+    exact Or.inr ⟨v, rfl⟩
+  | 3 =>
+    simp only [assignGroupPartVoice, List.mem_map] at hc
+    obtain ⟨v, _, rfl⟩ := hc
+    exact Or.inl rfl
+  | 4 =>
+    simp only [assignGroupPartVoice, List.mem_map] at hc
+    obtain ⟨v, _, rfl⟩ := hc
+    exact Or.inl rfl
+  | 5 =>
+    simp only [assignGroupPartVoice, List.mem_map] at hc
+    obtain ⟨v, _, rfl⟩ := hc
+    exact Or.inl rfl
+  | n + 6 =>
+    simp only [assignGroupPartVoice, List.mem_map] at hc
+    obtain ⟨v, _, rfl⟩ := hc
+    exact Or.inl rfl
+
+theorem voiceInt_inj (x y : Option Nat) (hx : x = none ∨ ∃ v, x = some (v + 1)) (hy : y = none ∨ ∃ v, y = some (v + 1))
+    (h : voiceInt x = voiceInt y) : x = y := by
+  rcases hx with rfl | ⟨v, rfl⟩ <;> rcases hy with rfl | ⟨w, rfl⟩
+  · rfl
+  · simp only [voiceInt] at h; omega
+  · simp only [voiceInt] at h; omega
+  · simp only [voiceInt] at h
+    have : v = w := by omega
+    rw [this]
+
+/-- a part belongs to one group: the note keys of a score -/
+theorem noteKeys_group (parts : List PartIn) :
+    ∀ a ∈ noteKeys parts, ∀ b ∈ noteKeys parts, kPart a = kPart b → kGroup a = kGroup b := by
+  intro a ha b hb hab
+  obtain ⟨xi, hxi, n, _, rfl⟩ := (mem_noteKeys parts a).mp ha
+  obtain ⟨xj, hxj, m, _, rfl⟩ := (mem_noteKeys parts b).mp hb
+  simp only [kPart, kGroup] at hab ⊢
+  have h1 := (mem_zipIdx_iff parts xi.1 xi.2).mp hxi
+  have h2 := (mem_zipIdx_iff parts xj.1 xj.2).mp hxj
+  rw [hab, h2] at h1
+  have := Option.some.inj h1
+  rw [this]
+
+-- ------------------------------------------------------------------ the importer returns
+
+theorem mapM_total {α β : Type} (f : α → Option β) (l : List α) (h : ∀ x ∈ l, ∃ y, f x = some y) :
+    ∃ r, l.mapM f = some r := by
+  induction l with
+  | nil => exact ⟨[], rfl⟩
+  | cons x xs ih =>
+    obtain ⟨y, hy⟩ := h x List.mem_cons_self
+    obtain ⟨ys, hys⟩ := ih (fun z hz => h z (List.mem_cons_of_mem _ hz))
+    refine ⟨y :: ys, ?_⟩
+    rw [List.mapM_cons]
+    simp [hy, hys]
+
+theorem assign_part_some (mode : Nat) (hm : mode ≤ 5) (trch : List (Nat × Nat)) :
+    ∀ c ∈ assignGroupPartVoice mode trch, ∃ p, c.2.1 = some p := by
+  intro c hc
+  match mode, hm with
+  | 0, _ =>
+    simp only [assignGroupPartVoice] at hc
+    obtain ⟨i, _, rfl⟩ := List.mem_iff_getElem.mp hc
+    simp only [List.getElem_zipWith]
+    exact ⟨_, rfl⟩
+  | 1, _ =>
+    simp only [assignGroupPartVoice] at hc
+    obtain ⟨i, _, rfl⟩ := List.mem_iff_getElem.mp hc
+    simp only [List.getElem_zipWith]
+    exact ⟨_, rfl⟩
+  | 2, _ =>
+    simp only [assignGroupPartVoice, List.mem_map] at hc
+    obtain ⟨v, _, rfl⟩ := hc
+    exact ⟨0, rfl⟩
+  | 3, _ =>
+    simp only [assignGroupPartVoice, List.mem_map] at hc
+    obtain ⟨v, _, rfl⟩ := hc
+    exact ⟨v, rfl⟩
+  | 4, _ =>
+    simp only [assignGroupPartVoice, List.mem_map] at hc
+    obtain ⟨v, _, rfl⟩ := hc
+    exact ⟨0, rfl⟩
+  | 5, _ =>
+    simp only [assignGroupPartVoice, List.mem_map] at hc
+    obtain ⟨v, _, rfl⟩ := hc
+    exact ⟨v, rfl⟩
+
+/-- for the six modes `load_score_midi` returns as soon as one track holds a completed note -/
+theorem import_total (mode : Nat) (hm : mode ≤ 5) (ticks : Nat) (tracks : List (List (Int × Msg)))
+    (hne : ∃ (i : Nat) (tr : List (Int × Msg)), tracks[i]? = some tr ∧ pairTrack tr ≠ []) :
+    ∃ imp, loadScoreMidi mode ticks tracks = some imp := by
+  unfold loadScoreMidi
+  dsimp only
+  obtain ⟨i, tr, htr, hp⟩ := hne
+  obtain ⟨n, hn⟩ := List.exists_mem_of_ne_nil _ hp
+  have hmem := (mem_byTrCh tracks i n.ch).mpr ⟨tr, htr, n, hn, rfl⟩
+  have hne' : (notesByTrCh ((readTracks tracks).filter fun e => !e.2.1.isEmpty)).isEmpty = false := by
+    rw [List.isEmpty_eq_false_iff]
+    intro h0
+    rw [h0] at hmem
+    simp at hmem
+  rw [if_neg (by simp [hne'])]
+  have := mapM_total (importPart ticks (notesByTrCh ((readTracks tracks).filter fun e => !e.2.1.isEmpty))
+    (sortedTC ((notesByTrCh ((readTracks tracks).filter fun e => !e.2.1.isEmpty)).map (·.1)))
+    (assignGroupPartVoice mode (sortedTC ((notesByTrCh ((readTracks tracks).filter fun e => !e.2.1.isEmpty)).map (·.1))))
+    (sigTables (readTracks tracks)))
+    (firstSeen ((assignGroupPartVoice mode (sortedTC ((notesByTrCh ((readTracks tracks).filter fun e => !e.2.1.isEmpty)).map (·.1)))).map (·.2.1)))
+    (by
+      intro q hq
+      rw [C04G.mem_firstSeen] at hq
+      obtain ⟨c, hc, rfl⟩ := List.mem_map.mp hq
+      obtain ⟨p, hp'⟩ := assign_part_some mode hm _ c hc
+      rw [hp']
+      exact ⟨_, rfl⟩)
+  obtain ⟨r, hr⟩ := this
+  exact ⟨_, by rw [hr]; rfl⟩
+
+-- ------------------------------------------------------------------ tagged notes of all tracks
+
+theorem zipIdx_flatMap_range {α β : Type} (l : List α) (F : α × Nat → List β) (d : α) (k : Nat) :
+    (l.zipIdx k).flatMap F = (List.range l.length).flatMap fun i => F (l[i]?.getD d, i + k) := by
+  induction l generalizing k with
+  | nil => rfl
+  | cons x xs ih =>
+    rw [List.zipIdx_cons, List.flatMap_cons, ih (k + 1), List.length_cons, List.range_succ_eq_map,
+      List.flatMap_cons, List.flatMap_map]
+    congr 1
+    · simp
+    · apply List.flatMap_congr
+      intro i _
+      simp only [List.getElem?_cons_succ]
+      congr 2
+      omega
+
+/-- the routed notes of all tracks, each with a tag computed from its (track, channel) -/
+theorem routes_tagged {τ : Type} (T : Nat × Nat → τ) (ktc : List (Key × (Nat × Nat))) (vel n : Nat) (recs : List NoteOut)
+    (hn : ∀ e ∈ recs.filterMap (C04E.routeAny ktc vel), e.1 < n) :
+    ((List.range n).flatMap fun tr => (recs.filterMap (C04E.route ktc vel tr)).map fun m => (noteRow m, T (tr, m.ch))).Perm
+      (recs.filterMap fun r => (lookup r.key ktc).map fun tc => ((r.on, r.pitch, r.off - r.on), T tc)) := by
+  have e1 : ∀ tr, ((recs.filterMap (C04E.route ktc vel tr)).map fun m => (noteRow m, T (tr, m.ch))) =
+      ((recs.filterMap (C04E.routeAny ktc vel)).filter (fun e => e.1 = tr)).map fun e => (noteRow e.2, T (e.1, e.2.ch)) := by
+    intro tr
+    rw [C04E.route_eq_filter, List.map_map]
+    apply List.map_congr_left
+    intro e he
+    have : e.1 = tr := by simpa using (List.mem_filter.mp he).2
+    simp [this]
+  simp only [e1]
+  rw [← List.map_flatMap]
+  refine ((C04G.group_perm_all (fun e : Nat × NoteRec => e.1) (List.range n) List.nodup_range _
+    (fun e he => List.mem_range.mpr (hn e he))).map _).trans (List.Perm.of_eq ?_)
+  rw [List.map_filterMap]
+  apply List.filterMap_congr
+  intro r _
+  simp only [C04E.routeAny, Option.map_map]
+  cases lookup r.key ktc with
+  | none => rfl
+  | some tc => rfl
 
 end C04C
